@@ -37,6 +37,9 @@ package lintcmd
 //@ ghost verdict(all []caseFoldedString, sel []caseFoldedString, k caseFoldedString, n int) int = n <= 0 ? 0 : (hits(all, sel[n-1], k) ? (selNeg(sel[n-1]) ? 2 : 1) : verdict(all, sel, k, n-1))
 
 //@ func filterAnalyzerNames
+//@   loop 1   invariant [nonnil] allowedChecks != nil
+//@   loop 2   invariant [nonnil] allowedChecks != nil
+//@   loop 3   invariant [nonnil] allowedChecks != nil
 //@   ensures  [dom] forall k caseFoldedString :: {k in result} (k in result) == (verdict(allAnalyzers, selection, k, len(selection)) != 0)
 //@   ensures  [val] forall k caseFoldedString :: {result[k]} (k in result) ==> result[k] == (verdict(allAnalyzers, selection, k, len(selection)) == 1)
 //@   loop 1   index n
@@ -48,3 +51,29 @@ package lintcmd
 //@   loop 3   index m
 //@   loop 3   invariant [dom] forall k caseFoldedString :: {k in allowedChecks} (k in allowedChecks) == ((memb(allAnalyzers, k, m) && globHits(check.s, k.s)) || (k in loopentry(allowedChecks)))
 //@   loop 3   invariant [val] forall k caseFoldedString :: {allowedChecks[k]} (k in allowedChecks) ==> allowedChecks[k] == ((memb(allAnalyzers, k, m) && globHits(check.s, k.s)) ? b : loopentry(allowedChecks)[k])
+
+//@ prop C12
+
+//@ func (diagnostic).descriptor
+//@   pure
+//@   ensures  result.Position == diag.Position && result.End == diag.End && result.Category == diag.Category && result.Message == diag.Message
+
+// From the property: a problem of an 'any' check is kept if any run reported it; a problem of an
+// 'all' check only if every run that checked its file reported it.
+//@ ghost keepMerged(runs []run, d diagnostic) bool = d.MergeIf == lint.MergeIfAny || (d.MergeIf == lint.MergeIfAll && (forall j int :: {runs[j]} 0 <= j && j < len(runs) && (d.Position.Filename in runs[j].checkedFiles) ==> (d.descriptor() in runs[j].diagnostics)))
+// d was reported by one of the first n runs
+//@ ghost reportedBy(runs []run, n int, d diagnostic) bool = exists i int, k diagnosticDescriptor :: {runs[i].diagnostics[k]} 0 <= i && i < n && (k in runs[i].diagnostics) && runs[i].diagnostics[k] == d
+//@ ghost occursIn(ds []diagnostic, d diagnostic) bool = exists x int :: {ds[x]} 0 <= x && x < len(ds) && ds[x] == d
+
+//@ func mergeRuns
+//@   ensures  [sound]    forall x int :: {result[x]} 0 <= x && x < len(result) ==> reportedBy(runs, len(runs), result[x]) && keepMerged(runs, result[x])
+//@   ensures  [complete] forall i int, k diagnosticDescriptor :: {runs[i].diagnostics[k]} 0 <= i && i < len(runs) && (k in runs[i].diagnostics) && keepMerged(runs, runs[i].diagnostics[k]) ==> occursIn(result, runs[i].diagnostics[k])
+//@   loop 1   index n
+//@   loop 1   invariant [sound]    forall x int :: {relevantDiagnostics[x]} 0 <= x && x < len(relevantDiagnostics) ==> reportedBy(runs, n, relevantDiagnostics[x]) && keepMerged(runs, relevantDiagnostics[x])
+//@   loop 1   invariant [complete] forall i int, k diagnosticDescriptor :: {runs[i].diagnostics[k]} 0 <= i && i < n && (k in runs[i].diagnostics) && keepMerged(runs, runs[i].diagnostics[k]) ==> occursIn(relevantDiagnostics, runs[i].diagnostics[k])
+//@   loop 2   visited seen
+//@   loop 2   invariant [sound]    forall x int :: {relevantDiagnostics[x]} 0 <= x && x < len(relevantDiagnostics) ==> reportedBy(runs, n+1, relevantDiagnostics[x]) && keepMerged(runs, relevantDiagnostics[x])
+//@   loop 2   invariant [complete] forall i int, k diagnosticDescriptor :: {runs[i].diagnostics[k]} 0 <= i && i < n && (k in runs[i].diagnostics) && keepMerged(runs, runs[i].diagnostics[k]) ==> occursIn(relevantDiagnostics, runs[i].diagnostics[k])
+//@   loop 2   invariant [current]  forall k diagnosticDescriptor :: {r.diagnostics[k]} (k in seen) && keepMerged(runs, r.diagnostics[k]) ==> occursIn(relevantDiagnostics, r.diagnostics[k])
+//@   loop 3   index j
+//@   loop 3   invariant [all] doPrint == (forall q int :: {runs[q]} 0 <= q && q < j && (diag.Position.Filename in runs[q].checkedFiles) ==> (diag.descriptor() in runs[q].diagnostics))
